@@ -17,6 +17,8 @@ CONSTANTS Reqs,        \* request identifiers (each issued at most once)
           MaxSock,     \* sockets ever created (0 = unbounded)
           MaxEv,       \* events the accessory may push per socket (0 = unbounded)
           MaxUnsol,    \* unsolicited responses overall
+          Limit,       \* capacity of the connection's semaphore (1 as the library constructs secure connections;
+                       \* HomeKitConnection accepts a larger concurrency_limit)
           Timed
 
 VARIABLES now, socks, cur, sem, semQ, reqs, evLog, unsol, wantUp
@@ -43,10 +45,11 @@ FailPending(rq, sk, s) ==
                     THEN [rq[r] EXCEPT !.wake = "lost"] ELSE rq[r]]
 
 \* semaphore release: hand over to the next waiter (its acquire() future is completed)
-Release(S) ==
-    IF S.semQ = << >> THEN [S EXCEPT !.sem = 0]
+\* (sem = set of requests holding a permit; r gives its permit back)
+ReleaseOf(S, r) ==
+    IF S.semQ = << >> THEN [S EXCEPT !.sem = @ \ {r}]
     ELSE LET n == Head(S.semQ) IN
-         [S EXCEPT !.sem = n, !.semQ = Tail(@),
+         [S EXCEPT !.sem = (@ \ {r}) \cup {n}, !.semQ = Tail(@),
                    !.reqs[n].wake = IF S.reqs[n].wake = "none" THEN "sem" ELSE S.reqs[n].wake]
 
 St == [socks |-> socks, cur |-> cur, sem |-> sem, semQ |-> semQ, reqs |-> reqs]
@@ -55,9 +58,9 @@ Commit(S) == /\ socks' = S.socks /\ cur' = S.cur /\ sem' = S.sem /\ semQ' = S.se
 \* the part of request() after the semaphore is held: protocol check, transport check, write
 SendOrFail(S, r) ==
     IF S.cur = 0 \/ S.cur # S.reqs[r].sock THEN      \* no protocol, or not the one the request was issued on
-        Release([S EXCEPT !.reqs[r] = [@ EXCEPT !.pc = "done", !.res = "disconnected", !.wake = "none", !.dl = At(0)]])
+        ReleaseOf([S EXCEPT !.reqs[r] = [@ EXCEPT !.pc = "done", !.res = "disconnected", !.wake = "none", !.dl = At(0)]], r)
     ELSE IF S.socks[S.cur].st # "up" THEN                       \* transport.is_closing()
-        Release([S EXCEPT !.reqs[r] = [@ EXCEPT !.pc = "done", !.res = "disconnected", !.wake = "none", !.dl = At(0)]])
+        ReleaseOf([S EXCEPT !.reqs[r] = [@ EXCEPT !.pc = "done", !.res = "disconnected", !.wake = "none", !.dl = At(0)]], r)
     ELSE [S EXCEPT !.socks[S.cur].cbs = Append(@, r), !.socks[S.cur].c2a = Append(@, r),
                    !.reqs[r] = [@ EXCEPT !.pc = "inflight", !.sock = S.cur, !.wake = "none", !.dl = At(T_REQUEST)]]
 
@@ -77,7 +80,7 @@ Issue(r, werr) ==
     /\ reqs[r].pc = "idle"
     /\ LET S == St IN
        IF S.cur = 0 THEN Commit([S EXCEPT !.reqs[r] = [@ EXCEPT !.pc = "done", !.res = "disconnected", !.dl = At(0)]])
-       ELSE IF S.sem = 0 THEN Commit(WriteErr(SendOrFail([S EXCEPT !.sem = r, !.reqs[r].sock = S.cur], r), r, werr))
+       ELSE IF Cardinality(S.sem) < Limit THEN Commit(WriteErr(SendOrFail([S EXCEPT !.sem = @ \cup {r}, !.reqs[r].sock = S.cur], r), r, werr))
        ELSE Commit([S EXCEPT !.semQ = Append(@, r), !.reqs[r].pc = "semwait", !.reqs[r].sock = S.cur])
     /\ UNCHANGED <<now, evLog, unsol, wantUp>>
 
@@ -99,14 +102,14 @@ ReqRun(r, werr) ==
                  \* already been handed to us, pass it on
                  LET S1 == [S EXCEPT !.semQ = SelectSeq(@, LAMBDA x : x # r),
                                      !.reqs[r] = [@ EXCEPT !.pc = "done", !.res = "cancelled", !.wake = "none", !.dl = At(0)]]
-                 IN IF S.sem = r THEN Release(S1) ELSE S1
+                 IN IF r \in S.sem THEN ReleaseOf(S1, r) ELSE S1
             [] R.pc = "inflight" /\ w = "resp" ->
-                 Release([S EXCEPT !.reqs[r] = [@ EXCEPT !.pc = "done", !.res = "resp", !.wake = "none", !.dl = At(0)]])
+                 ReleaseOf([S EXCEPT !.reqs[r] = [@ EXCEPT !.pc = "done", !.res = "resp", !.wake = "none", !.dl = At(0)]], r)
             [] R.pc = "inflight" /\ w \in {"timeout", "cancel", "lost"} ->
                  \* _send_lines: except -> transport.write_eof(); transport.close(); raise
                  LET S1 == CloseTransport(S, R.sock) IN
-                 Release([S1 EXCEPT !.reqs[r] = [@ EXCEPT !.pc = "done", !.wake = "none", !.dl = At(0),
-                                                  !.res = IF w = "cancel" THEN "cancelled" ELSE "disconnected"]])
+                 ReleaseOf([S1 EXCEPT !.reqs[r] = [@ EXCEPT !.pc = "done", !.wake = "none", !.dl = At(0),
+                                                  !.res = IF w = "cancel" THEN "cancelled" ELSE "disconnected"]], r)
             [] OTHER -> S)
     /\ UNCHANGED <<now, evLog, unsol, wantUp>>
 
@@ -215,7 +218,7 @@ InternalEnabled ==
     \/ \E s \in Socks : socks[s].c2a # << >> /\ socks[s].pclose = "no"
 Quiescent == ~InternalEnabled
 
-Init == /\ now = 0 /\ socks = << >> /\ cur = 0 /\ sem = 0 /\ semQ = << >>
+Init == /\ now = 0 /\ socks = << >> /\ cur = 0 /\ sem = {} /\ semQ = << >>
         /\ reqs = [r \in Reqs |-> IdleReq] /\ evLog = << >> /\ unsol = 0 /\ wantUp = TRUE
 
 Next ==
@@ -248,8 +251,11 @@ NoWriteAfterFault ==
 NoStaleCompletion ==
     [][\A r \in Reqs : (reqs[r].wake # "resp" /\ reqs'[r].wake = "resp") => socks[reqs[r].sock].st = "up"]_vars
 \* the semaphore is held by a request that is actually running, or handed to a queued one
-SemConsistent == /\ sem # 0 => reqs[sem].pc \in {"inflight", "semwait"} \/ reqs[sem].wake # "none"
+SemConsistent == /\ Cardinality(sem) <= Limit
+                 /\ \A r \in sem : reqs[r].pc \in {"inflight", "semwait"} \/ reqs[r].wake # "none"
                  /\ \A i \in 1..Len(semQ) : reqs[semQ[i]].pc = "semwait"
+\* at most Limit requests are on the wire / awaiting a response at any time
+InFlightBounded == Cardinality({r \in Reqs : reqs[r].pc = "inflight"}) <= Limit
 \* nothing hangs: a request in flight on a dead socket has been woken
 NoOrphan == \A r \in Reqs : (reqs[r].pc = "inflight" /\ socks[reqs[r].sock].st = "dead") => reqs[r].wake # "none"
 \* liveness (untimed, fairness on the controller's own steps and the timer)
